@@ -440,17 +440,16 @@ Definition roomy (c : Z) (prev : list (N * file)) : bool :=
   (c <=? 0) || (Z.of_nat (length prev) <=? c).
 
 (* clause 2: a normal pass over scan removes exactly the scanned, unprotected files that are idle
-   (seen last access older than tti) or expired (age above ttl > 0) *)
+   (seen last access older than tti) or expired (age above ttl > 0); when LRU eviction can
+   interfere (no room in the map) only one direction is required: the due files are gone *)
 Definition chk_exact (c tti ttl nw : Z) (scan : list N) (prev : list (N * file)) (pmap : list N)
            (cur : list (N * file)) : bool :=
-  if roomy c prev then
-    forallb (fun p =>
-      let n := fst p in
-      let gone := negb (amem n cur) in
-      let due := memb n scan && negb (is_persisted (snd p))
-                 && ready tti ttl nw (seen (memb n pmap) nw (snd p)) in
-      Bool.eqb gone due) prev
-  else true.
+  forallb (fun p =>
+    let n := fst p in
+    let gone := negb (amem n cur) in
+    let due := memb n scan && negb (is_persisted (snd p))
+               && ready tti ttl nw (seen (memb n pmap) nw (snd p)) in
+    if roomy c prev then Bool.eqb gone due else implb due gone) prev.
 
 (* the same pointwise, as a function: which scanned files a TTL/TTI pass deletes, and the record
    of file m after a pass over scan started in state s *)
